@@ -14,7 +14,7 @@ PROPERTY = 'C03'
 RULE = ('explicit-state BFS to fix-point; case = one transition (state incl. trimmed search buffer, '
         'call with its own W and pattern list, answer sequence); judged against the naive reference '
         'run in lock-step on the same answers; non-trivial = text was pending or received')
-ASSUMPTIONS = ['alphabet / stream length bounded as in bounds; chunks of 1..2 characters and one empty read per call',
+ASSUMPTIONS = ['alphabet / stream length bounded as in bounds; chunks of 1..2 characters (1..3 in the maxchunk=3 tasks), one empty read per call, and a one-character chunk that arrives as the deadline passes',
                'W in {None,1,2,3,4,L+1} per call']
 STATES_MEANING = 'distinct canonical product states (implementation buffers x reference pending text x budget), deduplicated, summed over tasks'
 REQUIRED_FLAGS = {'boundary_inside_match': 1, 'timeout_between_calls': 1, 'window_trim': 1,
@@ -32,7 +32,11 @@ def tasks(tier):
          dict(mode='bytes', inst_sw=2, menu='c03', sigma='ab', L=4 if q else 5),
          dict(mode='bytes', inst_sw=None, menu='c03nl', sigma='ab\n', L=3 if q else 5),
          dict(mode='bytes', inst_sw=None, menu='c03x', sigma='ab', L=4 if q else 6),
-         dict(mode='bytes', inst_sw=None, menu='c03r', sigma='ab', L=4 if q else 6)]
+         dict(mode='bytes', inst_sw=None, menu='c03r', sigma='ab', L=4 if q else 6),
+         # reads of up to three characters: a chunk longer than the longest listed string that completes
+         # an occurrence begun in the text already pending
+         dict(mode='bytes', inst_sw=None, menu='c03x', sigma='ab', L=4 if q else 5, maxchunk=3),
+         dict(mode='utf-8', inst_sw=None, menu='c03r', sigma='ab', L=4 if q else 5, maxchunk=3)]
     if not q:
         t += [dict(mode='bytes', inst_sw=None, menu='c03x', sigma='ab', L=7),
               dict(mode='bytes', inst_sw=None, menu='c03r', sigma='ab', L=7),
